@@ -39,6 +39,8 @@ def strat(tier):
             "mode": st.sampled_from(["notated", "musical", "musical-custom", "musical-then-notated"]),
             "mbeats": mb,
             "extra_first_ts": st.booleans(),
+            # order in which the division changes are applied (any order is documented as valid)
+            "div_order": st.one_of(st.just([]), st.lists(st.integers(0, 5), min_size=1, max_size=4)),
         }
     )
 
@@ -46,7 +48,25 @@ def strat(tier):
 def oracle(spec):
     o = Outcome()
     ps = spec["part"]
-    part, _ = build_part(ps)
+    div_order = spec.get("div_order") or None
+    part, _ = build_part(ps, div_order=div_order)
+    if div_order and len(ps["divs"]) > 2:
+        # set_quarter_duration is documented as: replace an entry at t, otherwise add unless the value
+        # in force before t already is q. Applied out of order this yields another table than the
+        # spec lists; the reference follows the documented rule on the applied order.
+        changes = list(ps["divs"][1:])
+        keyed = sorted(range(len(changes)), key=lambda i: (div_order[i % len(div_order)], i))
+        table = [list(ps["divs"][0])]
+        for i in keyed:
+            t, q = changes[i]
+            at = [e for e in table if e[0] == t]
+            before = [e for e in table if e[0] < t]
+            if at:
+                at[0][1] = q
+            elif not before or before[-1][1] != q:
+                table.append([t, q])
+                table.sort()
+        ps = dict(ps, divs=table)
     ref = G.PartRef(ps)
     mode = spec["mode"]
     mbeats = spec["mbeats"] if mode == "musical-custom" else {}
@@ -76,6 +96,7 @@ def oracle(spec):
     o.cls("change-not-on-barline", any(t not in bars for t in ts_changes + div_changes))
     o.cls("coinciding-changes", bool(set(ts_changes) & set(div_changes)))
     o.cls("division-change", bool(div_changes))
+    o.cls("division-changes-applied-out-of-order", len(ps["divs"]) > 2 and bool(spec.get("div_order")))
     o.cls("signature-change", bool(ts_changes))
 
     # ---- reference maps (Fractions) --------------------------------------
@@ -157,6 +178,61 @@ def oracle(spec):
     return o
 
 
+# ------------------------------------------------------------------ divisions in force after any call order
+def strat_qd(tier):
+    call_ = st.tuples(st.integers(0, 14), st.sampled_from([1, 2, 3, 4, 6]))
+    return st.fixed_dictionaries({"q0": st.sampled_from([1, 2, 4]), "calls": st.lists(call_, min_size=1, max_size=7), "end": st.integers(15, 24)})
+
+
+def oracle_qd(spec):
+    """quarter_duration_map / quarter_map after set_quarter_duration calls in arbitrary order, against the
+    documented rule (replace an entry at t; otherwise add unless the value in force before t is q)."""
+    o = Outcome()
+    part = S.Part("P", quarter_duration=spec["q0"])
+    table = [[0, spec["q0"]]]
+    order_increasing = True
+    last_t = -1
+    for (t, q) in spec["calls"]:
+        call(part.set_quarter_duration, t, q)
+        at = [e for e in table if e[0] == t]
+        before = [e for e in table if e[0] < t]
+        if at:
+            at[0][1] = q
+        elif not before or before[-1][1] != q:
+            table.append([t, q])
+            table.sort()
+        if t <= last_t:
+            order_increasing = False
+        last_t = t
+    part.add(S.Measure(number=1), 0, spec["end"])
+    part.add(S.TimeSignature(4, 4), 0)
+    o.nontrivial = not order_increasing and len(table) >= 3
+    o.cls("calls-out-of-order", not order_increasing)
+    o.cls("three-or-more-entries", len(table) >= 3)
+
+    def f(x):
+        cur = table[0][1]
+        for (tt, qq) in table:
+            if tt <= x:
+                cur = qq
+        return cur
+
+    xs = np.arange(0, spec["end"] + 1)
+    got = np.asarray(call(part.quarter_duration_map, xs.astype(float)))
+    for x, g in zip(xs, got):
+        if int(g) != f(int(x)):
+            o.add("quarter_duration_map-wrong-after-unordered-calls", t=int(x), got=float(g), expected=f(int(x)), calls=spec["calls"], q0=spec["q0"])
+            return o
+    # the quarter map advances by 1/divisions per timeline unit
+    qm = np.asarray(call(part.quarter_map, xs), dtype=float)
+    for a in range(len(xs) - 1):
+        exp = 1.0 / f(int(xs[a]))
+        if abs((qm[a + 1] - qm[a]) - exp) > 1e-9:
+            o.add("quarter_map-slope-wrong-after-unordered-calls", t=int(xs[a]), got=float(qm[a + 1] - qm[a]), expected=exp, calls=spec["calls"], q0=spec["q0"])
+            return o
+    return o
+
+
 SUBCHECKS = [
     SubCheck(
         "time_maps",
@@ -165,5 +241,13 @@ SUBCHECKS = [
         budget={"quick": 250, "thorough": 6000},
         rule="generated parts with division/time-signature changes (on and off bar lines), pickups, irregular bars, notated/musical beats; maps compared with Fraction arithmetic at every integer position; non-trivial = >=1 division change and >=1 signature change strictly inside the timeline",
         floors={"pickup": 0.05, "musical-beats-with-ts-change": 0.03, "change-not-on-barline": 0.05},
+    ),
+    SubCheck(
+        "divisions_after_unordered_calls",
+        oracle_qd,
+        strategy=strat_qd,
+        budget={"quick": 300, "thorough": 20000},
+        rule="set_quarter_duration called 1-7 times in arbitrary order with repeated values; quarter_duration_map at every position and the slope of quarter_map compared with the documented rule; non-trivial = calls out of temporal order and >= 3 table entries",
+        floors={"calls-out-of-order": 0.3},
     ),
 ]
